@@ -238,9 +238,15 @@ def run(chk):
 
             def sends(n):
                 return node_calls(n, ".transmit")
-            w2 = must_pass(fc.cfg, lambda n: sends(n) or (n.kind == "test" and "is_periodic" in src(n.ast)), from_node=node)
-            chk.check(w2 is None, "R5", f"{P}:BaseNode402.controlword.setter | PDO transmitted", cw.loc(s),
-                      f"after the PDO store a path neither transmits nor consults is_periodic: {path_text(w2) if w2 else ''}")
+            def periodic_side(n, lab):
+                if n.kind != "test":
+                    return False
+                t = src(n.ast)
+                return (t in ("not pdo.is_periodic",) and lab == "F") or (t in ("pdo.is_periodic",) and lab == "T")
+            w2 = must_pass(fc.cfg, sends, from_node=node, skip_edge=periodic_side)
+            chk.check(w2 is None, "R5", f"{P}:BaseNode402.controlword.setter | event-driven PDO is transmitted for every assignment", cw.loc(s),
+                      f"after the PDO store a path of a non-periodic map returns without transmit() (e.g. when the value equals the cached one): the drive never receives "
+                      f"the command: {path_text(w2) if w2 else ''}")
             for t in [n for n in fc.cfg.nodes if sends(n)]:
                 g = [(src(e), p) for e, p in fc.facts_at(t.ast)]
                 chk.check(("pdo.is_periodic", False) in g or ("not pdo.is_periodic", True) in g, "R5",
